@@ -35,6 +35,7 @@ CONSTANTS Sources,     \* source SSRCs (32-bit patterns)
           Pin,         \* initial_output_timestamp when pinOn
           VideoPts,    \* source payload types that go to the optional video target ({} = no video target)
           Reinstalls,  \* BOOLEAN: the bridge may be cleared and installed again mid-behaviour
+          Ups,         \* {TRUE}, or {TRUE, FALSE} when the push to the target socket may fail for a packet
           MaxLen
 
 VARIABLES tbl, mode,
@@ -62,7 +63,7 @@ Thr == 900000
 Gap == 3000
 
 NoSt   == [on |-> FALSE, outSsrc |-> 0, nextSeq |-> 0, off |-> 0, hasLast |-> FALSE, lastSrc |-> 0]
-NoPrev == [on |-> FALSE, ts |-> 0, outTs |-> 0, outSeq |-> 0]
+NoPrev == [on |-> FALSE, ts |-> 0, outTs |-> 0, outSeq |-> 0, sent |-> TRUE]
 
 Init ==
   /\ tbl \in Tables
@@ -88,7 +89,9 @@ PairClass(src, ts) ==
        IF ~Forward31(d) THEN "backward"
        ELSE IF d > Thr THEN "jump" ELSE "cont"
 
-Forward(src, pt, ts) ==
+\* `up` = the relay push to the target socket succeeds. A failed push loses the packet AFTER it was rewritten:
+\* its sequence number is consumed (the output stream shows the loss as a gap) and the timestamp state moves on.
+Forward(src, pt, ts, up) ==
   LET ri   == RuleIdx(pt)
       map  == IF ri = 0 THEN src
               ELSE IF tbl[ri].fixOn THEN tbl[ri].fix ELSE Add32(src, tbl[ri].off)
@@ -111,18 +114,20 @@ Forward(src, pt, ts) ==
       cls  == PairClass(src, ts)
       first == ~st[src].on
       \* which rule of C19 governs each output field of this packet
-      tsRule == IF cls = "cont" THEN "TsPreserve" ELSE "EXT"
-      rec  == [op |-> "fwd", src |-> src, pt |-> pt, ts |-> ts,
+      tsRule == IF cls = "cont" /\ prev[src].sent THEN "TsPreserve" ELSE "EXT"
+      rec  == [op |-> "fwd", src |-> src, pt |-> pt, ts |-> ts, up |-> up,
                \* target_for: chosen from the ORIGINAL payload type, before any rewrite (EXT)
                tgt |-> IF pt \in VideoPts THEN 2 ELSE 1,
                exp |-> [ssrc |-> s0.outSsrc, pt |-> outPt, seq |-> outSeq, ts |-> outTs,
                         first |-> first, cont |-> cls,
                         mid |-> IF ri # 0 /\ ~mode.strip THEN tbl[ri].mid ELSE 0,
-                        tsRule |-> tsRule]]     \* ssrc and pt are always under "StableMap"
+                        tsRule |-> tsRule,      \* ssrc and pt are always under "StableMap"
+                        \* consecutive with the previous OUTPUT of this source; after a lost push: EXT (gap of one)
+                        seqRule |-> IF first THEN "EXT" ELSE IF prev[src].sent THEN "SeqConsecutive" ELSE "EXT"]]
   IN
   /\ st' = [st EXCEPT ![src] = [on |-> TRUE, outSsrc |-> s0.outSsrc, nextSeq |-> (s0.nextSeq + 1) % 65536,
                                 off |-> off1, hasLast |-> TRUE, lastSrc |-> ls1]]
-  /\ prev' = [prev EXCEPT ![src] = [on |-> TRUE, ts |-> ts, outTs |-> outTs, outSeq |-> outSeq]]
+  /\ prev' = [prev EXCEPT ![src] = [on |-> TRUE, ts |-> ts, outTs |-> outTs, outSeq |-> outSeq, sent |-> up]]
   /\ seen' = seen \cup {<<src, ri, s0.outSsrc, outPt>>}
   /\ hist' = Append(hist, rec)
   /\ last' = [kind |-> "fwd", src |-> src, rule |-> ri, first |-> first, cont |-> cls, outSsrc |-> s0.outSsrc, outPt |-> outPt,
@@ -145,8 +150,8 @@ Next ==
   /\ Len(hist) < MaxLen
   /\ \/ \E src \in Sources, pt \in PtAlpha :
           IF prev[src].on
-          THEN \E dl \in Deltas : Forward(src, pt, Add32(prev[src].ts, dl))
-          ELSE \E t0 \in StartTs : Forward(src, pt, t0)
+          THEN \E dl \in Deltas, up \in Ups : Forward(src, pt, Add32(prev[src].ts, dl), up)
+          ELSE \E t0 \in StartTs, up \in Ups : Forward(src, pt, t0, up)
      \/ Reinstall
 
 Spec == Init /\ [][Next]_vars
